@@ -975,7 +975,91 @@ func rulePoolUAP(r *Run) {
 		key := fmt.Sprintf("%s/use-after-Put:%s#%d", shortFunc(ps.fn), ps.pool, n[ps.pool])
 		put := ps.call.(ssa.Instruction)
 		if _, deferred := put.(*ssa.Defer); deferred {
-			r.ok(key, put.Pos(), "deferred Put: runs at function exit")
+			// the Put runs at function exit: what the function returns must not be memory of the object it gives
+			// back at that very moment (a slice into a pooled lexer's token array, say); byte slices and buffers
+			// are POOL-ESCAPE's subject
+			bad := ""
+			var badPos token.Pos
+			if x := ps.arg; x != nil {
+				ts := typeString(x.Type())
+				if ts != "*[]byte" && ts != "*bytes.Buffer" {
+					alias := map[ssa.Value]bool{x: true}
+					for _, o := range p.origins(x, defaultOrigin) {
+						alias[o] = true
+					}
+					isRef := func(t types.Type) bool {
+						switch t.Underlying().(type) {
+						case *types.Slice, *types.Pointer, *types.Map, *types.Interface, *types.Chan:
+							return true
+						}
+						return false
+					}
+					// the object, or what is reached from it through its fields (z.Reader.Header)
+					var fromObjD func(v ssa.Value, depth int) bool
+					fromObjD = func(v ssa.Value, depth int) bool {
+						if depth > 4 {
+							return false
+						}
+						for _, o := range p.origins(v, defaultOrigin) {
+							if alias[o] {
+								return true
+							}
+							switch y := o.(type) {
+							case *ssa.FieldAddr:
+								if fromObjD(y.X, depth+1) {
+									return true
+								}
+							case *ssa.UnOp:
+								if fa, ok := y.X.(*ssa.FieldAddr); ok && y.Op == token.MUL && fromObjD(fa.X, depth+1) {
+									return true
+								}
+							}
+						}
+						return false
+					}
+					fromObj := func(v ssa.Value) bool { return fromObjD(v, 0) }
+					eachInstr(ps.fn, func(in ssa.Instruction) {
+						rt, ok := in.(*ssa.Return)
+						if !ok {
+							return
+						}
+						for _, rv := range rt.Results {
+							if !isRef(rv.Type()) || isErrorType(rv.Type()) {
+								continue // (an error reported by the object is not its memory)
+							}
+							for _, o := range p.origins(rv, defaultOrigin) {
+								derived := alias[o]
+								switch y := o.(type) {
+								case *ssa.FieldAddr:
+									derived = derived || fromObj(y.X)
+								case *ssa.UnOp:
+									if fa, ok := y.X.(*ssa.FieldAddr); ok && y.Op == token.MUL {
+										derived = derived || fromObj(fa.X)
+									}
+								case *ssa.Call:
+									for _, a := range y.Call.Args {
+										if fromObj(a) {
+											derived = true
+										}
+									}
+									if y.Call.IsInvoke() && fromObj(y.Call.Value) {
+										derived = true
+									}
+								}
+								if derived {
+									bad = describeValue(o)
+									badPos = rt.Pos()
+								}
+							}
+						}
+					})
+				}
+			}
+			if bad != "" {
+				r.bad(key, badPos, "the function returns memory of the pooled object (%s) while its deferred Put gives the object back at that moment: the caller reads it while another request already owns and rewrites the object", bad)
+			} else {
+				r.ok(key, put.Pos(), "deferred Put: runs at function exit, nothing of the object is returned")
+			}
 			continue
 		}
 		// Put inside a closure that is only deferred by its parent: also at exit
